@@ -10,6 +10,7 @@ import KfacVerif.Props.C12
 import KfacVerif.Props.C20
 import KfacVerif.Props.C03
 import KfacVerif.Props.C14
+import KfacVerif.Props.C18
 
 namespace KV.Witness
 open KV
@@ -67,5 +68,19 @@ example (c : Precond.Cfg) (h : c.accum = 2) :
 
 /-- triangular packing round trip on a concrete symmetric matrix -/
 example : Comm.fillTriu 3 (Comm.getTriu [[1, 2, 3], [2, 4, 5], [3, 5, 6]]) = [[1, 2, 3], [2, 4, 5], [3, 5, 6]] := by decide
+
+/-- C18 value level: two ranks of one stage hold the layers `a`, `b` with DIFFERENT values; rank 1 is the
+    inverse worker of `a`, rank 0 of `b`; the placement satisfies `PlaceOK`, the state holds the inverse workers'
+    values, and a load on the factor workers (here: everybody) overwrites the other rank's stale value -/
+example : C18.PlaceOK 2 (fun _ => ["a", "b"]) (fun n => if n = "a" then 1 else 0) :=
+  ⟨fun r n hr hn => by
+    simp only [List.mem_cons, List.mem_nil_iff, or_false] at hn
+    rcases hn with rfl | rfl <;> simp⟩
+example :
+    NeoxL.mergedVal 2 (fun _ => ["a", "b"]) (fun n => if n = "a" then 1 else 0) (fun r n => (n, r)) "a" = some ("a", 1) ∧
+    NeoxL.mergedVal 2 (fun _ => ["a", "b"]) (fun n => if n = "a" then 1 else 0) (fun r n => (n, r)) "b" = some ("b", 0) ∧
+    NeoxL.loadVal (fun _ => ["a", "b"]) (fun r _ => r)
+      (NeoxL.mergedVal 2 (fun _ => ["a", "b"]) (fun n => if n = "a" then 1 else 0) (fun r n => (n, r)))
+      (fun _ n => (n, 99)) 0 "a" = ("a", 1) := by decide
 
 end KV.Witness
